@@ -59,7 +59,15 @@ def one(i, also=False, patch=None, props=None):
                     except Exception:
                         pass
                     break
-            out[p] = dict(exit=rc, detected=det, how=how, what=what, line=lines[0] if lines else None,
+            rex = None
+            if det and how == 'failing-input':
+                for l in lines:
+                    if 'replay=' in l and not l.rstrip().endswith('no-failing-input-found'):
+                        rp = l.split('replay=')[1].split()[0]
+                        rp = rp.replace('/verif/', vf + '/') if rp.startswith('/verif/') else rp
+                        rex = sh(f'./check replay {rp}', cwd=vf, env=env)[0]
+                        break
+            out[p] = dict(exit=rc, detected=det, how=how, what=what, replay_exit=rex, line=lines[0] if lines else None,
                           tail=None if det else o.strip().splitlines()[-3:], wall=round(time.time() - t0, 1))
     except Exception as ex:
         out['error'] = repr(ex)
@@ -96,7 +104,7 @@ def main():
                     meta.setdefault('detected_by', {})[p] = r['detected']
             json.dump(meta, open(mp, 'w'), indent=1)
             own = out.get(meta['property'], {})
-            print(i, {p: (r.get('how') or ('MISSED exit=%s' % r.get('exit'))) if isinstance(r, dict) else r for p, r in out.items()}, flush=True)
+            print(i, {p: ((r.get('how') + ('' if r.get('replay_exit') in (None, 1) else ' REPLAY-EXIT=%s' % r.get('replay_exit'))) if r.get('how') else ('MISSED exit=%s' % r.get('exit'))) if isinstance(r, dict) else r for p, r in out.items()}, flush=True)
             if not own.get('detected'):
                 missed.append(i)
     sh('git -C /repo worktree prune')
